@@ -519,7 +519,7 @@ impl Prop for Finds {
         match self.0 {
             Which::Prefix => vec![("prefix len 1", 500, 5000), ("prefix len 2", 500, 5000), ("prefix len >3", 2000, 20000), ("word with stem < len", 200, 2000), ("function word", 20, 200), ("word > 20 letters", 20, 200), ("stores with a title in letters outside the BMP", 20, 200), ("stores with a word (or word pair) of more than 1024 letters", 2, 20), ("stores cleared and refilled before the judged searches", 100, 1000), ("judged queries preceded by the searches of a person typing them", 5000, 50000), ("titles with more than 20 words", 100, 1000)],
             Which::Typo => vec![("substitution at first", 50, 500), ("insertion at first", 50, 500), ("deletion at first", 50, 500), ("transposition at first", 50, 500), ("transposition at last", 50, 500), ("len 5", 200, 2000), ("len >20", 100, 1000), ("stores with a title in letters outside the BMP", 20, 200), ("stores with a word (or word pair) of more than 1024 letters", 2, 20), ("stores cleared and refilled before the judged searches", 100, 1000), ("typo letter that is an accented letter of the language", 3000, 30000), ("judged queries preceded by the searches of a person typing them", 5000, 50000), ("titles with more than 20 words", 30, 300), ("exhaustive-letter edits", 30000, 250000), ("exhaustive-letter words that are function words", 150, 150)],
-            Which::Whole => vec![("whole title", 1000, 10000), ("first last", 300, 3000), ("stores with a title in letters outside the BMP", 20, 200), ("stores with a word (or word pair) of more than 1024 letters", 2, 20), ("stores cleared and refilled before the judged searches", 100, 1000), ("judged queries preceded by the searches of a person typing them", 5000, 50000), ("last first", 300, 3000), ("title with function word", 50, 500), ("titles with more than 20 words", 200, 2000), ("catalogues searched while small, then grown and given limit = N", 6, 60)],
+            Which::Whole => vec![("whole title", 1000, 10000), ("first last", 300, 3000), ("stores with a title in letters outside the BMP", 20, 200), ("stores with a word (or word pair) of more than 1024 letters", 2, 20), ("stores cleared and refilled before the judged searches", 100, 1000), ("judged queries preceded by the searches of a person typing them", 5000, 50000), ("last first", 300, 3000), ("title with function word", 50, 500), ("titles with more than 20 words", 200, 2000), ("catalogues searched while small, then grown and given limit = N", 6, 60), ("titles with more than 65 536 distinct grams", 1, 10)],
             Which::SplitJoin => vec![("split", 2000, 20000), ("split after first letter", 200, 2000), ("stores with a title in letters outside the BMP", 20, 200), ("stores with a word (or word pair) of more than 1024 letters", 2, 20), ("stores cleared and refilled before the judged searches", 100, 1000), ("judged queries preceded by the searches of a person typing them", 5000, 50000), ("join", 100, 1000), ("join with 1-letter first word", 3, 30), ("titles with more than 20 words", 100, 1000), ("split followed by a separator", 20000, 200000), ("split next to symbols inside the word", 300, 3000)],
         }
     }
@@ -640,6 +640,22 @@ impl Prop for Finds {
                     (lang, w)
                 };
                 self.typo_exhaustive(cx, lang, &word);
+            }
+            "big" if self.0 == Which::Whole && idx % 16 == 15 && cx.tier != Tier::Miri => {
+                // a title with more than 65 536 distinct grams (290-330 words of 230 different letters), searched verbatim
+                let lang = LANGS[((idx / 16) % NL) as usize];
+                let letters: Vec<char> = (0..230u32).filter_map(|k| std::char::from_u32(0x4E00 + k * 7)).collect();
+                let nwords = cx.rng.range(290, 330);
+                let mut words: Vec<String> = vec![];
+                for _ in 0..nwords {
+                    let mut w = letters.clone();
+                    cx.rng.shuffle(&mut w);
+                    words.push(s(&w));
+                }
+                let recs: Vec<Rec> = vec![(1, "metal mailbox".to_string(), 1), (2, words.join(" "), 2), (3, words[1].clone(), 3)];
+                let st = St::build_sentinel(lang, &recs, 10);
+                cx.count("titles with more than 65 536 distinct grams");
+                self.check_record(cx, &st, &json!(format!("3 records; record 2 has {} words of 230 different letters", nwords)), &recs[1], &mut done);
             }
             "big" => {
                 // a catalogue of 4200-9000 records dominated by one word (posting lists beyond 4096 / 8192
